@@ -751,7 +751,7 @@ class C08(Prop):
         if case["op"] == "c08_seq":
             if fmt != "treeinfo":
                 return []
-            return [{"op": "ti_dumps", "args": {"spec": sp, "main_variant": mv}} for _, mv, sp in self._seq_keys(a)]
+            return [{"op": "ti_dumps", "args": {"spec": FTI.model_tree_spec(sp), "main_variant": mv}} for _, mv, sp in self._seq_keys(a)]
         reqs = []
         for s in a["orders"][:3]:
             spec = permute(fmt, a["spec"], s)
@@ -760,7 +760,8 @@ class C08(Prop):
             elif fmt == "images":
                 reqs.append({"op": "images_dumps", "args": {"state": FIM.model_state(spec)}})
             elif fmt == "treeinfo":
-                reqs.append({"op": "ti_dumps", "args": {"spec": spec, "main_variant": a.get("mv")}})
+                # wire form of the shared adapter (bool media numbers / bool timestamps travel as what they are written as)
+                reqs.append({"op": "ti_dumps", "args": {"spec": FTI.model_tree_spec(spec), "main_variant": a.get("mv")}})
             elif fmt == "discinfo":
                 reqs.append({"op": "di_dumps", "args": {"spec": FDI.model_spec(spec)}})
             elif FMF is not None:
@@ -965,6 +966,8 @@ class C08(Prop):
             for i in range(1, len(a["orders"])):
                 c = copy.deepcopy(case)
                 del c["args"]["orders"][i]
+                if c["args"].get("styles") and i < len(c["args"]["styles"]):
+                    del c["args"]["styles"][i]
                 out.append(c)
         if a.get("ndumps", 1) > 1:
             c = copy.deepcopy(case)
